@@ -157,6 +157,33 @@ task<void> inner_task() { G->trace = co_await async_trace_sender{};
 #endif
   co_return; }
 task<void> outer_task() { co_await inner_task(); }
+// plain awaitables (not senders) with the three await_suspend flavours; `suspend` says whether the awaiter really suspends
+coro::coroutine_handle<> g_parked;
+struct BoolAwaiter { bool suspend; bool await_ready() const noexcept { return false; } bool await_suspend(coro::coroutine_handle<> h) noexcept { if (suspend) g_parked = h; return suspend; } int await_resume() noexcept { return 7; } };
+struct VoidAwaiter { bool await_ready() const noexcept { return false; } void await_suspend(coro::coroutine_handle<> h) noexcept { g_parked = h; } int await_resume() noexcept { return 8; } };
+struct HandleAwaiter { bool suspend; bool await_ready() const noexcept { return false; } coro::coroutine_handle<> await_suspend(coro::coroutine_handle<> h) noexcept { if (suspend) { g_parked = h; return coro::noop_coroutine(); } return h; } int await_resume() noexcept { return 9; } };
+struct ReadyAwaiter { bool await_ready() const noexcept { return true; } void await_suspend(coro::coroutine_handle<>) noexcept {} int await_resume() noexcept { return 6; } };
+int g_awaited = 0;
+void frame_check(const char* where) {
+#if !UNIFEX_NO_ASYNC_STACKS
+  // a running coroutine with async-stack support has an active frame on this thread's current root
+  auto* root = unifex::tryGetCurrentAsyncStackRoot();
+  if (!root || !root->getTopFrame()) vmcrt::fail("C20", "async-stack-frame-inactive", (std::string("no active AsyncStackFrame while the coroutine runs ") + where).c_str());
+#else
+  (void)where;
+#endif
+}
+template <class A>
+task<void> awaiter_task(A a, int expect) {
+  frame_check("before the await");
+  int v = co_await std::move(a);
+  frame_check("after the await");
+  if (v != expect) vmcrt::fail("C20", "awaiter-result", "await_resume value lost");
+  ++g_awaited;
+  G->trace = co_await async_trace_sender{};   // a second suspension point: bookkeeping must still be consistent
+  frame_check("after the second await");
+  co_return;
+}
 task<void> outer_sender_task() { co_await then(inner_task(), []() noexcept {}); }
 #endif
 }  // namespace
@@ -183,7 +210,32 @@ VMC_SEQ_HARNESS(trace_chain, "C20") {
     }
   } else {
 #if !UNIFEX_NO_COROUTINES
-    int k = vmc::choose(5);
+    int k = vmc::choose(12);
+    if (k >= 5) {
+      // plain awaitables inside a task<>: k-5 = {bool:false, bool:true, void, handle:self, handle:noop, ready, nested}
+      g_parked = {}; g_awaited = 0;
+      Seen seen; G = &seen;
+      auto body = [&](auto t, const char* name) {
+        auto op = unifex::connect(std::move(t), RootRcv{&seen});
+        unifex::start(op);
+        if (g_parked) { auto h = g_parked; g_parked = {}; if (seen.completed) vmcrt::fail("C20", "awaiter-result", "completed while parked"); h.resume(); }
+        if (!seen.completed || seen.how != 'V' || g_awaited != 1) vmcrt::fail("C20", "awaiter-result", (std::string(name) + ": task awaiting a plain awaitable did not complete with value exactly once").c_str());
+#if !UNIFEX_NO_ASYNC_STACKS
+        if (unifex::tryGetCurrentAsyncStackRoot() != nullptr) vmcrt::fail("C20", "async-stack-root", (std::string(name) + ": AsyncStackRoot still installed after completion").c_str());
+#endif
+        vmc::note(std::string(name) + ":ok");
+      };
+      switch (k) {
+        case 5: body(awaiter_task(BoolAwaiter{false}, 7), "await(bool:false)"); break;
+        case 6: body(awaiter_task(BoolAwaiter{true}, 7), "await(bool:true)"); break;
+        case 7: body(awaiter_task(VoidAwaiter{}, 8), "await(void)"); break;
+        case 8: body(awaiter_task(HandleAwaiter{false}, 9), "await(handle:self)"); break;
+        case 9: body(awaiter_task(HandleAwaiter{true}, 9), "await(handle:noop)"); break;
+        case 10: body(awaiter_task(ReadyAwaiter{}, 6), "await(ready)"); break;
+        default: body(then(awaiter_task(BoolAwaiter{false}, 7), []() noexcept {}), "then(await(bool:false))"); break;
+      }
+      return;
+    }
     // a task must be started on its scheduler's context; inline_scheduler from RootRcv makes this thread the context
     // coroutine promises are transparent in the trace (they are not receivers): only receivers count as layers
     if (k == 0) run_one("task", inner_task(), 1);
